@@ -16,8 +16,8 @@ LEVEL = "model_checking"
 NAMES = ("a", "b", "c")
 ABSENT = "zz"
 MAXROWS = 5          # short tables grow up to this many rows
-PATTERN = ("c", "b", "a", "c", "b") * 6
-KCOL = ("b", "b", "a", "c", "a") * 6
+PATTERN = ("c", "b", "a", "c", "b") * 8
+KCOL = ("b", "b", "a", "c", "a") * 8
 
 
 class Model:
@@ -113,6 +113,9 @@ class System(simple.SimpleSystem):
         # the name alphabet of this system: the three standard names, or the names of the initial column when they are special
         self.names = NAMES if set(init) <= set(NAMES) else tuple(dict.fromkeys(init))
         self.universe = universe(tier, self.names)
+        # names that do not occur: a plain one, and for the look-alike system names that only match another entry when they
+        # are (wrongly) read as a case-insensitive regular expression
+        self.absent = (ABSENT,) if "mq.a" not in self.names else (ABSENT, "MQ.A", "iP", "m..a", "d1|ip")
 
     # ---- real side
     def build(self):
@@ -194,7 +197,7 @@ class System(simple.SimpleSystem):
             if pos is not None:
                 m.icol()[pos] = op[2]
         elif k in ("col", "attr"):
-            pat = PATTERN if self.names == NAMES else tuple(self.names[(i * 2) % len(self.names)] for i in range(30))
+            pat = PATTERN if self.names == NAMES else tuple(self.names[(i * 2) % len(self.names)] for i in range(40))
             if op[1] == "pattern":
                 val = np.array(pat[:n], dtype=object)
                 new = list(pat[:n])
@@ -243,7 +246,7 @@ class System(simple.SimpleSystem):
             m.order.remove(m.index)
         elif k == "readd":
             n = len(m.cols[m.order[0]])
-            pat = PATTERN if self.names == NAMES else tuple(self.names[(i * 2) % len(self.names)] for i in range(30))
+            pat = PATTERN if self.names == NAMES else tuple(self.names[(i * 2) % len(self.names)] for i in range(40))
             val = np.array((pat + pat)[1:n + 1], dtype=object)
             if op[1] == "item":
                 t[m.index] = val
@@ -382,7 +385,7 @@ class System(simple.SimpleSystem):
                 return issues
 
         maxc = max(3, max(cnt.values(), default=0) + 1)
-        for name in tuple(self.names) + (ABSENT,):
+        for name in tuple(self.names) + tuple(self.absent):
             for count in (None,) + tuple(range(-maxc, maxc + 1)):
                 for off in (0, -1, 1):
                     pos = resolve(col, name, count, off)
@@ -452,14 +455,85 @@ class System(simple.SimpleSystem):
             shown = [ln.split()[0] for ln in txt.split("\n")[1:]]
             if shown != [str(x) for x in labels]:
                 bad(f"show() prints row labels {shown!r}, get_index_unique() gives {labels!r}")
+        if n and not issues:
+            # repr(table) is show() too: all rows below 30, the first and the last ten from 30 rows on
+            lines = repr(t).split("\n")[2:]
+            shown = [ln.split()[0] for ln in lines if ln != "..."]
+            want = want_labels if n < 30 else want_labels[:10] + want_labels[-10:]
+            if shown != want:
+                bad(f"repr(table) prints row labels {shown!r}; the current index column gives {want!r}")
+        if n and not issues:
+            issues.extend(self.derived(t, col, hist, op))
+        if n and not issues and self.names == NAMES:
+            issues.extend(self.show_rows(t, col, want_labels, hist, op))
         return issues
+
+    def derived(self, t, col, hist, op):
+        """tables the API derives from the current one (after the lookups above have filled its caches) resolve names against
+        THEIR OWN index column"""
+        out = []
+        for what, mk, dcol in (("t * 2", lambda: t * 2, list(col) * 2), ("t + t", lambda: t + t, list(col) * 2),
+                               ("t._copy()", lambda: t._copy(), list(col)),
+                               ("t.rows[::-1]", lambda: t.rows[::-1], list(col)[::-1])):
+            d = mk()
+            if [str(x) for x in d._data[d._index]] != [str(x) for x in dcol]:
+                continue      # the shape of derived tables is C14's subject
+            cnt = {}
+            for x in dcol:
+                cnt[x] = cnt.get(x, 0) + 1
+            for name in tuple(self.names) + (ABSENT,):
+                top = cnt.get(name, 0) + 1
+                for count in (None,) + tuple(range(-top, top + 1)):
+                    pos = resolve(dcol, name, count, 0)
+                    form = name if count is None else f"{name}::{count}"
+                    try:
+                        r = d.rows.get_index(form)
+                        ok = pos is not None and r == pos
+                    except KeyError:
+                        r, ok = "KeyError", pos is None
+                    if not ok:
+                        exp = "KeyError" if pos is None else f"row {pos}"
+                        out.append(self.issue(hist, op, f"on d = {what}: d.rows.get_index({form!r}) gave {r!r}; the index column of d "
+                                                        f"{dcol!r} defines {exp}", {"index_column": list(col)}))
+                        return out
+        return out
+
+    def show_rows(self, t, col, want_labels, hist, op):
+        """show(rows=selector) prints the labels of the selected rows.  On the pinned tree it indexes the label array with
+        positions relative to the SELECTED view (recorded known finding show-rows-labels): recognised exactly, anything else
+        is a violation."""
+        out = []
+        n = len(col)
+        sels = [(nm, [i for i, x in enumerate(col) if x == nm]) for nm in self.names if nm in col]
+        # (a list given to show(rows=...) is a chain of selectors, not a position list: not used here)
+        sels += [(slice(1, None), list(range(1, n))), (slice(-2, None), list(range(n))[-2:])]
+        for sel, pos in sels:
+            if not pos:
+                continue
+            want = [want_labels[i] for i in pos]
+            shown = [ln.split()[0] for ln in t.show(rows=sel, output=str, maxwidth="full").split("\n")[1:]]
+            if shown == want:
+                continue
+            # the recorded defect: labels taken at the positions the selector has INSIDE the selected view
+            k = len(pos)
+            defect = [want_labels[i] for i in range(k)] if isinstance(sel, str) else None
+            if defect is not None and shown == defect:
+                out.append(self.issue(hist, op, f"show(rows={sel!r}) prints row labels {shown!r}; the selected rows are {want!r}",
+                                      {"index_column": list(col)}, kind="known", finding="show-rows-labels"))
+            else:
+                out.append(self.issue(hist, op, f"show(rows={sel!r}) prints row labels {shown!r}; the selected rows of the current "
+                                                f"index column {col!r} are {want!r}", {"index_column": list(col)}))
+            return out
+        return out
 
 
 LONG = tuple("abcabacbbacabcaabcbbca")      # 21 rows, every name repeated (sorting-based cache builds need > 16 rows to go wrong)
 SPECIAL = ("m:1", "m", "p>q", "m:1")       # names with a lone ':' / '>' (the separators are '::', '<<', '>>')
-INITS_QUICK = [(), ("a",), ("a", "b", "a"), LONG, SPECIAL, ("a", "b", "a", "U")]
+LOOKALIKE = ("mqxa", "mq.a", "IP", "ip", "mq.a", "d1", "d[1]")   # names that match ANOTHER entry when read as a case-insensitive regex
+BIG = tuple("abcabacbbacabcaabcbbcaabcacbbacca")       # 33 rows: repr() prints the first and the last ten
+INITS_QUICK = [(), ("a",), ("a", "b", "a"), LONG, SPECIAL, ("a", "b", "a", "U"), LOOKALIKE, BIG]
 INITS_THOROUGH = [(), ("a",), ("a", "b", "a"), ("b", "a", "a", "b"), ("a", "a"), LONG, tuple("ccbbaacbacbacbaabbccabcabc"),
-                  SPECIAL, ("m", "p>q", "m:1"), ("a", "b", "a", "U"), ("b", "a", "a", "b", "U")]
+                  SPECIAL, ("m", "p>q", "m:1"), ("a", "b", "a", "U"), ("b", "a", "a", "b", "U"), LOOKALIKE, BIG]
 
 
 def plan(tier, seed):
@@ -475,6 +549,8 @@ def plan(tier, seed):
             d_ = 4      # depth 5 only from the tables of at most two rows (the alphabet has some sixty operations)
         if variant or not set(init) <= set(NAMES):
             d_ = min(d_, 3)
+        if init == LOOKALIKE:
+            d_ = 2 if tier == "quick" else 3      # six names: the alphabet has some ninety operations
         jobs.append({"name": f"bfs:{''.join(init) or 'empty'}{variant}:d{d_}", "mode": "pure", "hashseed": seed % 2 ** 32,
                      "nproc": 5 if tier == "quick" else 16, "timeout": 3300,
                      "args": {"init": init, "tier": tier, "depth": d_, "time_cap": 2400, "variant": variant}})
